@@ -58,6 +58,9 @@ pub enum Profile {
     LayerA,
     /// C10 exactness: uniform allocations only
     Uniform,
+    /// long histories over a narrow alphabet (fill a chunk, cross it, reset, shrink/grow/free the last block,
+    /// fail an initialiser, move the limit): depth where the rich profiles cannot go
+    Deep,
     /// C16: panicking callbacks inside arena methods
     Panics,
     /// allocator-API sweep: every finger offset x block size/alignment x shrink/grow to every size and
@@ -641,6 +644,33 @@ impl ArenaModel {
                 let big = (cap / ua + 2).min(250) as u8;
                 a.push(Act::UniSliceFail { al, len: big, fail_at: big - 1 });
                 a.push(Act::Reset { probe: false });
+            }
+            Profile::Deep => {
+                lay(&mut a, true, &[8], &[0, 4]);
+                if cap > 8 {
+                    lay(&mut a, true, &[cap], &[0]);
+                }
+                lay(&mut a, true, &[cap + 1], &[0]);
+                a.push(Act::Allocate { size: 24, al: 0 });
+                if nraw > 0 {
+                    let (s0, a0) = raw_sz(0).unwrap();
+                    let a0l = crate::util::log2(a0);
+                    a.push(Act::Dealloc { h: 0 });
+                    a.push(Act::Shrink { h: 0, new_size: s0 / 2, al: a0l });
+                    a.push(Act::Shrink { h: 0, new_size: s0, al: 4 });
+                    a.push(Act::Grow { h: 0, new_size: s0 + 8, al: a0l, zeroed: false });
+                    a.push(Act::Grow { h: 0, new_size: s0 + cap + 1, al: a0l, zeroed: true });
+                }
+                a.push(Act::TryWith { fallible: false, ty: Ty::B449, ok: false, inner: Inner::Nothing, probe: false, esz: 0 });
+                a.push(Act::TryWith { fallible: true, ty: Ty::U64, ok: false, inner: Inner::AllocKeep, probe: false, esz: 0 });
+                a.push(Act::Slice { m: SM::InitTryFillWith, el: El::U64, len: 3, fail_at: 1, inner: Inner::Nothing });
+                a.push(Act::Reset { probe: false });
+                if p.limit.is_some() {
+                    a.push(Act::SetLimit { some: false, val: 0 });
+                } else {
+                    a.push(Act::SetLimit { some: true, val: held_usable });
+                    a.push(Act::SetLimit { some: true, val: held_usable + 1000 });
+                }
             }
             Profile::ApiSweep => {
                 let m = M;
